@@ -288,9 +288,16 @@ pub fn check(ctx: &Ctx, c: &FlowCase, st: &mut Stats) -> Result<(), Fail> {
             }
         }
         let out = http_feed(&p.frame, &mut flows, &procs).map_err(|e| fail!("error", "packet {pi}: {e}"))?;
+        // attribution: a report names as its source the sender of the packet it is made on (the endpoints as the decoder reads them)
+        let ends = crate::props::c15::decoded_endpoints(&p.frame);
         if let Some(q) = &out.http_request {
             if !p.client {
                 return Err(fail!("request-attributed-to-server-packet", "packet {pi}"));
+            }
+            if let Some((s, d, sp, dp)) = ends {
+                if (q.source.ip, q.source.port, q.destination.ip, q.destination.port) != (s, sp, d, dp) {
+                    return Err(fail!("request-endpoints-are-not-the-sending-direction", "packet {pi} {s}:{sp} -> {d}:{dp}, reported {}:{} -> {}:{}", q.source.ip, q.source.port, q.destination.ip, q.destination.port));
+                }
             }
             rq_n += 1;
             let (pre, contiguous) = prefix(&c_have, &csegs);
@@ -309,6 +316,11 @@ pub fn check(ctx: &Ctx, c: &FlowCase, st: &mut Stats) -> Result<(), Fail> {
         if let Some(q) = &out.http_response {
             if p.client {
                 return Err(fail!("response-attributed-to-client-packet", "packet {pi}"));
+            }
+            if let Some((s, d, sp, dp)) = ends {
+                if (q.source.ip, q.source.port, q.destination.ip, q.destination.port) != (s, sp, d, dp) {
+                    return Err(fail!("response-endpoints-are-not-the-sending-direction", "packet {pi} {s}:{sp} -> {d}:{dp}, reported {}:{} -> {}:{}", q.source.ip, q.source.port, q.destination.ip, q.destination.port));
+                }
             }
             rs_n += 1;
             let (pre, contiguous) = prefix(&s_have, &ssegs);
